@@ -364,6 +364,13 @@ def operators_rule(ctx, rid="R2.E1"):
                         s = sum((Md[i][j] for i in range(c, n, dim) for j in range(c2, n, dim)), Q(0))
                         if not eqm(s, 0):
                             return f"{elem}: the mass matrix couples the directions {'xyz'[c]} and {'xyz'[c2]} (block sum {polys(s)[0]})"
+            # the density changed on the SAME simulation (after an assembly): M carries the new mass
+            W.set(simu, "rho", Q(5))
+            Md2 = dense(W.call(simu, "Get_K_C_M_F")[2], n)
+            total2 = domain_measure(dim) * (th if dim == 2 else 1) * Q(5)
+            s = sum((Md2[i][j] for i in range(0, n, dim) for j in range(0, n, dim)), Q(0))
+            if not eqm(s, total2):
+                return f"{elem}: after `simu.rho = 5` on the assembled simulation the mass matrix sums to {polys(s)[0]} in direction x, the body weighs rho * measure * thickness = {total2} (an element matrix of the old density is kept)"
             return None
 
         return (f"operators {elem}", kcmf, thunk)
